@@ -546,7 +546,7 @@ def lib_coverage(lib):
     return out
 
 # ---- styles
-WS = [32, 32, 32, 9, 10, 10, 13]
+WS = [32, 32, 32, 9, 10, 10, 13, 32, 9, 10, 11, 12]     # the ASCII white-space characters (C isspace): blank, TAB, LF, CR, VT, FF
 COMMENTS = ["", " plain comment", "é中😀 non-ascii ́", " MACRO x ; END", "#\"quote", " \u0085  spaces", " crlf file\r"]
 def gen_sep_items(rng, first_ws=True, lo=1):
     n = max(lo, rng.choice([1, 1, 1, 2, 3, 4]))
